@@ -262,7 +262,7 @@ def hex_to_dts(value: HexStr12) -> str | None:
         return None
     _seqx = int(value, 16)
     return dt(
-        year=(_seqx & 0b1111111 << 24) >> 24,
+        year=2000 + ((_seqx & 0b1111111 << 24) >> 24),  # dt() rejects year 0
         month=(_seqx & 0b1111 << 36) >> 36,
         day=(_seqx & 0b11111 << 31) >> 31,
         hour=(_seqx & 0b11111 << 19) >> 19,
